@@ -41,7 +41,9 @@
   "decorating a class = decorating each function, classmethod, staticmethod and property the
   class itself defines, recursively for classes nested in it; everything else untouched".
 
-  The model reflects the tree with fix `C13_nested_qualname_prefix` applied: a class-valued
+  The model reflects the tree with the fixes `C13_nested_qualname_prefix` and
+  `C13_property_accessors_nonfatal` (/repo dd7f4e1: the accessors of a property are decorated through
+  `beartype_object`, one by one under the guard, like the wrappee of a classmethod) applied: a class-valued
   attribute is a nested class iff its qualified name extends the qualified name of the decorated
   class by at least one component (`cls.__qualname__ + '.'` is a prefix), see `nestedIn`.
 -/
@@ -131,14 +133,16 @@ def decorFunc (env : Env) (conf : Conf) (f : Func) (st : St) : Res Func :=
   else if f1.ann == .failing then ⟨f1, st, true⟩    -- `generate_code` raises `BeartypeDecorHint…Exception`
   else ⟨f1.mkWrapper st.next, ⟨st.next + 1, st.warns⟩, false⟩
 
-def decorFuncOpt (env : Env) (conf : Conf) : Option Func → St → Res (Option Func)
-  | none, st => ⟨none, st, false⟩
-  | some f, st => let r := decorFunc env conf f st; ⟨some r.val, r.st, r.raised⟩
-
 /-- `beartype_object(func, conf=conf)` on a function object: `beartype_func` under the guard. This is
-    what `beartype_descriptor_decorator_builtin_class_or_static_method` applies to the wrappee. -/
+    what `beartype_descriptor_decorator_builtin_class_or_static_method` applies to the wrappee and
+    (tree with fix `C13_property_accessors_nonfatal`) what
+    `beartype_descriptor_decorator_builtin_property` applies to getter, setter and deleter. -/
 def decorFuncObj (env : Env) (conf : Conf) (f : Func) (st : St) : Res Func :=
   guard conf f (decorFunc env conf f st)
+
+def decorFuncObjOpt (env : Env) (conf : Conf) : Option Func → St → Res (Option Func)
+  | none, st => ⟨none, st, false⟩
+  | some f, st => let r := decorFuncObj env conf f st; ⟨some r.val, r.st, r.raised⟩
 
 mutual
 /-- An attribute value of a class dictionary. -/
@@ -212,9 +216,10 @@ def beartypeable (qual : List String) : Member → Bool
 /-- `beartype_nontype` for the builtin descriptors and plain functions (everything but classes).
     A descriptor is ALWAYS rebuilt (new oid) around the decorated function(s) — unless the
     decoration of a function inside raises: then the exception propagates and the object is left
-    as it was (a property is all-or-nothing: `beartype_func` on getter, setter, deleter in turn,
-    `property(…)` only after all three; the wrappee of a classmethod / staticmethod goes through
-    `beartype_object`, hence through the guard). -/
+    as it was (`property(…)` is built only after getter, setter, deleter). The wrappee of a
+    classmethod / staticmethod and each accessor of a property go through `beartype_object`, hence
+    through the guard: under the warning option only the function that cannot be decorated is left
+    as it was, with its own warning, and the descriptor is rebuilt around it. -/
 def decorLeaf (env : Env) (conf : Conf) : Member → St → Res Member
   | .func f, st =>
       let r := decorFunc env conf f st
@@ -226,11 +231,11 @@ def decorLeaf (env : Env) (conf : Conf) : Member → St → Res Member
       let r := decorFuncObj env conf f st
       if r.raised then ⟨.smeth o f, st, true⟩ else ⟨.smeth r.st.next r.val, ⟨r.st.next + 1, r.st.warns⟩, false⟩
   | .prop o doc g s d, st =>
-      let rg := decorFunc env conf g st
+      let rg := decorFuncObj env conf g st
       if rg.raised then ⟨.prop o doc g s d, st, true⟩ else
-      let rs := decorFuncOpt env conf s rg.st
+      let rs := decorFuncObjOpt env conf s rg.st
       if rs.raised then ⟨.prop o doc g s d, st, true⟩ else
-      let rd := decorFuncOpt env conf d rs.st
+      let rd := decorFuncObjOpt env conf d rs.st
       if rd.raised then ⟨.prop o doc g s d, st, true⟩ else
       ⟨.prop rd.st.next doc rg.val rs.val rd.val, ⟨rd.st.next + 1, rd.st.warns⟩, false⟩
   | m, st => ⟨m, st, false⟩
@@ -398,13 +403,13 @@ def Func.failsOpt (env : Env) (conf : Conf) : Option Func → Bool
   | none => false
   | some f => f.fails env conf
 
-/-- Does `beartype_nontype` raise on this non-class member? A classmethod / staticmethod raises
-    only when nothing guards its wrappee. -/
+/-- Does `beartype_nontype` raise on this non-class member? A classmethod / staticmethod / property
+    raises only when nothing guards the functions inside. -/
 def Member.failsLeaf (env : Env) (conf : Conf) : Member → Bool
   | .func f => f.fails env conf
   | .cmeth _ f => f.fails env conf && !conf.warn
   | .smeth _ f => f.fails env conf && !conf.warn
-  | .prop _ _ g s d => g.fails env conf || Func.failsOpt env conf s || Func.failsOpt env conf d
+  | .prop _ _ g s d => (g.fails env conf || Func.failsOpt env conf s || Func.failsOpt env conf d) && !conf.warn
   | _ => false
 
 def Func.noopOpt (env : Env) (conf : Conf) : Option Func → Bool
